@@ -1,4 +1,5 @@
 import re
+import threading
 from configparser import ConfigParser
 from io import StringIO
 from warnings import warn
@@ -1929,18 +1930,41 @@ class LazyCryptContext(CryptContext):
             kwds["schemes"] = schemes
         self._lazy_kwds = kwds
 
+    #: lock serializing the (one-time) lazy initialization; re-entrant, since the
+    #: initializing thread accesses the instance's attributes while it runs.
+    _lazy_lock = threading.RLock()
+
     def _lazy_init(self):
-        kwds = self._lazy_kwds
-        if "onload" in kwds:
-            onload = kwds.pop("onload")
-            kwds = onload(**kwds)
-        del self._lazy_kwds
-        super().__init__(**kwds)
-        self.__class__ = CryptContext
+        # NOTE: a second thread making its first call while another one is still
+        #       initializing the instance must wait for it to finish -- ``_lazy_kwds``
+        #       stays in place (so that thread ends up here, blocking on the lock)
+        #       until the instance is a fully working CryptContext.
+        with LazyCryptContext._lazy_lock:
+            state = object.__getattribute__(self, "__dict__")
+            kwds = state.get("_lazy_kwds")
+            if kwds is None:
+                # another thread completed the initialization while we waited
+                return
+            if state.get("_lazy_owner") == threading.get_ident():
+                # re-entered by the initializing thread itself
+                return
+            state["_lazy_owner"] = threading.get_ident()
+            try:
+                kwds = dict(kwds)
+                if "onload" in kwds:
+                    onload = kwds.pop("onload")
+                    kwds = onload(**kwds)
+                CryptContext.__init__(self, **kwds)
+                self.__class__ = CryptContext
+                del state["_lazy_kwds"]
+            finally:
+                state.pop("_lazy_owner", None)
 
     def __getattribute__(self, attr):
-        if (
-            not attr.startswith("_") or attr.startswith("__")
-        ) and self._lazy_kwds is not None:
-            self._lazy_init()
+        if (not attr.startswith("_") or attr.startswith("__")) and (
+            object.__getattribute__(self, "__dict__").get("_lazy_kwds") is not None
+        ):
+            # NOTE: not ``self._lazy_init()`` -- another thread may just have
+            #       switched the class of this instance to CryptContext.
+            LazyCryptContext._lazy_init(self)
         return object.__getattribute__(self, attr)
